@@ -136,6 +136,7 @@ pub fn preprocess<T: AsRef<Path>, U: AsRef<Path>, V: BuildHasher>(
         include_paths,
         strip_comments,
         ignore_include,
+        0, // resolve_depth
         0, // include_depth
     )
 }
@@ -146,6 +147,7 @@ fn preprocess_inner<T: AsRef<Path>, U: AsRef<Path>, V: BuildHasher>(
     include_paths: &[U],
     strip_comments: bool,
     ignore_include: bool,
+    resolve_depth: usize,
     include_depth: usize,
 ) -> Result<(PreprocessedText, Defines), Error> {
 
@@ -166,7 +168,10 @@ fn preprocess_inner<T: AsRef<Path>, U: AsRef<Path>, V: BuildHasher>(
             include_paths,
             ignore_include,
             strip_comments,
-            0, // resolve_depth
+            // An `include inside a macro expansion stays inside that expansion: the depth of macro
+            // nesting is carried into the included file, otherwise a macro chain that ends in an
+            // `include of its own file nests RECURSIVE_LIMIT * RECURSIVE_LIMIT levels deep.
+            resolve_depth,
             include_depth,
         )
     }
@@ -746,6 +751,7 @@ pub fn preprocess_str<T: AsRef<Path>, U: AsRef<Path>, V: BuildHasher>(
                         include_paths,
                         strip_comments,
                         false, // ignore_include
+                        resolve_depth,
                         include_depth + 1).map_err(
                         |x| Error::Include {
                             source: Box::new(x),
